@@ -1,7 +1,7 @@
 """C20 — backtracking state: theorems of Properties/C20.v + full-state correspondence between
 the extracted model (Model/State.v) and the real State driven through the StateProbe hook."""
 import itertools
-from . import core
+from . import core, engprop, gen
 
 THEOREMS = ["C20_refines_op", "C20_all_histories"]
 VALS = ["0", "1", "2", "M"]
@@ -213,18 +213,17 @@ def gen_cases(tier, seed):
     return cases, len(corpus)
 
 
-def run(tier, seed, replay=None):
-    res = core.Result("C20", tier, seed)
-    obligations, closed, log = core.coq_property("C20", THEOREMS)
-    proof_ok = True
-    for name, ok in obligations:
-        proof_ok &= res.oblige(name, ok)
-    core.build_ocaml()
-    core.build_harness()
-    if replay:
+def state_part(ctx):
+    """the State-level half: full-state correspondence of Model/State.v with the real State
+    through the StateProbe hook, and the reference-machine search for a failing history"""
+    res, tier, seed, replay = ctx["res"], ctx["tier"], ctx["seed"], ctx["replay"]
+    proof_ok = all(ok for _, ok in res.obligations if not _.startswith("tie:"))
+    if replay and "ops" in replay:
         cases = [(int(replay["ops"].split("|")[0].split()[0]), int(replay["ops"].split("|")[0].split()[1]),
                   [o for o in replay["ops"].split("|")[1].split(";") if o.strip()])]
         ncorp = 1
+    elif replay:
+        return
     else:
         cases, ncorp = gen_cases(tier, seed)
     lines = [line(n, mx, seq) for (n, mx, seq) in cases]
@@ -238,30 +237,45 @@ def run(tier, seed, replay=None):
     for c in cases:
         for o in c[2]:
             opk[o[0]] = opk.get(o[0], 0) + 1
-    res.cov.update(evaluations=len(lines), distinct_nontrivial=len(distinct),
-                   rule="histories = fixed corpus + all valid sequences of a fixed short length over the op alphabet (1-2 slots) + seeded random valid sequences (1-3 slots, values {0,1,2,3,9,M}, max_stack in {2,3,10}); valid by construction against a depth mirror; non-trivial = contains a slot write later abandoned, or a cut; distinct by full text",
-                   samples=[lines[0], lines[min(ncorp, len(lines) - 1)], lines[-1]],
-                   exhaustive=False)
-    res.notes.update(history_length_min=min(lens), history_length_max=max(lens),
-                     op_histogram=opk, theorem_assumptions=closed,
+    ctx["evals"] += len(lines)
+    ctx["nontrivial"] += len(distinct)
+    res.notes.update(state_histories=len(lines), state_histories_nontrivial=len(distinct),
+                     state_history_rule="histories = fixed corpus + all valid sequences of a fixed short length over the op alphabet (1-2 slots) + seeded random valid sequences (1-3 slots, values {0,1,2,3,9,M}, max_stack in {2,3,10}); valid by construction against a depth mirror; non-trivial = contains a slot write later abandoned, or a cut; distinct by full text",
+                     state_history_samples=[lines[0], lines[min(ncorp, len(lines) - 1)], lines[-1]],
+                     history_length_min=min(lens), history_length_max=max(lens),
+                     op_histogram=opk,
                      model_panics=sum(1 for m in model if "PANIC" in m),
                      impl_panics=sum(1 for m in impl if "PANIC" in m))
-    res.assumptions = ["operation sequences satisfy the VM's own preconditions (pop/cut on a deep enough stack, aux pop on a non-empty aux stack, slot < n_saves); exactly the premise `rexec ... = Some _` of the theorems"]
-    if replay or not (proof_ok and tie_ok):
+    if (replay and "ops" in replay) or not (proof_ok and tie_ok):
         wit = search_failing(cases)
-        if replay and not wit and proof_ok and tie_ok:
-            return res.finish("replay")
-        failing = [n for n, ok in res.obligations if not ok]
         if wit:
-            wit["broken"] = failing
-            res.violation(wit)
-        else:
-            first = None
-            if bad:
-                i = bad[0]
-                first = {"ops": lines[i], "impl": impl[i], "model": model[i]}
-            res.violation({"kind": "obligation" if not proof_ok else "tie", "broken": failing,
-                           "first_disagreement": first,
-                           "note": "the outputs of the real State still equal the reference machine's on every explored history; the named theorem/tier no longer checks",
-                           "coq_log_tail": log[-1500:] if not proof_ok else ""}, no_input=True)
-    return res.finish("make -C coq Properties/C20.vo && coqc -Q coq FR coq/Properties/C20.v (Print Assumptions) ; ocaml/frmodel state vs harness/target/release/frh state")
+            ctx["violations"].append(wit)
+        elif bad:
+            i = bad[0]
+            ctx["tie_fail"].append({"tier": "T3-state", "ops": lines[i], "impl": impl[i], "model": model[i]})
+
+
+def family():
+    """program-level replay of the discipline: commit points (negative look-around failure,
+    atomic group end, condition) in the positions where the alternatives they must keep or
+    discard share a target with an enclosing optional group / alternation / repeat"""
+    commits = ["(?!a)", "(?!b)", "(?<!b)", "(?<!a)", "(?!ab)", "(?!(a)b)", "(?>a|ab)", "(?>(a)|ab)", "(?>a*)", "(?(?=a)|b)", "(?(?!a)b)", "(?!a|(b))"]
+    ctxs = ["(?:x|C)?a", "(?:x|C)?", "(?:b|C)?a", "(?:y|(?:x|C))?a", "(?:x|C){0,1}a", "(?:x|C)??a", "(?:(?:b|C)?a)+", "(?:b|C)*a", "(?:C|b)?a",
+            "(b)?(?(1)x|C)?a", "(?>x|C)?a", "(?:(a)|C)?a\\1?", "(?:a|C){1,2}b", "(?=(?:b|C)?a)a", "(?:(?:a|C)|b)?a", "(?:b|bC)?ba", "(?:(a)|b|C)?(?:a|b)c"]
+    return [c.replace("C", k) for c in ctxs for k in commits]
+
+
+F = [gen.Feats(cond=True), gen.Feats(cond=True, nullable_star=True), gen.Feats(look=True, atomic=True, keepout=False)]
+CFG = {
+    "prop": "C20", "theorems": THEOREMS, "feats": F, "n_quick": 300, "n_thorough": 8000,
+    "tiers": ("run", "sem"), "sem_is_property": False, "k_base_quick": 10, "k_extra_quick": 6, "k_base_thorough": 50, "k_extra_thorough": 30,
+    "corpus": family(), "extras": [state_part], "quick_products": 120,
+    "extra_texts": ["ba", "xa", "aa", "bba", "abc", "bac"],
+    "rule": "State level: operation histories (see state_history_rule). Program level: patterns = the commit-point family (negative look-around / atomic group / condition as the last item of an optional group, alternation or repeat body) + context x filler products + seeded random trees with look-around, atomic groups and conditionals; texts over {a,b,c,e-acute,newline,-} exhaustive to a length bound plus fixed and seeded random ones; every char-boundary start offset; the real vm::run is compared with the model VM (result and exact statistics) and the public API with the reference semantics",
+    "assumptions": ["operation sequences satisfy the VM's own preconditions (pop/cut on a deep enough stack, aux pop on a non-empty aux stack, slot < n_saves); exactly the premise `rexec ... = Some _` of the theorems"],
+    "checker_cmd": "make -C coq Properties/C20.vo && coqc -Q coq FR coq/Properties/C20.v (Print Assumptions) ; ocaml/frmodel {state,stateref,run,sem} vs harness/target/release/frh {state,run,api}",
+}
+
+
+def run(tier, seed, replay=None):
+    return engprop.run(CFG, tier, seed, replay)
